@@ -91,6 +91,10 @@ CHECKS.update({
             "For generated valid blocks of 1-300 transactions the engine builds same-header variants (every root-preserving CVE-2012-2459 duplication pattern at all odd levels, witness stripped/altered/added, coinbase reserved value games, wrong/missing/shadowed commitments, the 64-byte-transaction collapse with ground txids, list edits) and delivers variant and genuine copies in seeded orders (header first, variant 0-3 times before/between/after the genuine block, forced or unrequested, withheld and re-delivered later, across reorgs and restarts). After every delivery: the genuine hash is never marked failed and a forced genuine delivery ends stored; what is stored under the hash reads back as exactly the genuine list; a variant is never connected or reported valid; a verdict for a root-indistinguishable variant is BLOCK_MUTATED; IsBlockMutated and FillBlock reject variants; merkle roots, mutation flags and merkle paths equal the model's own implementation.",
             "The P2P block/cmpctblock handlers are not driven (their gates IsBlockMutated / FillBlock are called directly); no manual invalidation or pruning in the workload.",
             CHAIN_TECH, "DESIGN.md §5 C04"),
+    "C28": ("nodesim/mempool-testaccept", "exploration",
+            "MempoolSim histories biased to test-accept plus edge-script coins (9 P2WSH witness scripts) spent in 25 variants labelled consensus-valid/invalid and policy-compliant/not from the BIPs, re-tests of every transaction ever built, unbroadcast marks, small-mempool runs where trimming and a rolling minimum fee occur. Every single-tx test_accept must leave entries, fees, usage, min fee, feerate diagram, prioritisation, unbroadcast set, sequence and totals unchanged; the real submission right after must give the same result type and reject reason (unless the mempool is at capacity); every policy-accepted transaction must be consensus-valid by label, by the model (final, mature, BIP68, value-conserving) and by TestBlockValidity of a block of it with its in-mempool ancestors.",
+            "One known finding (lazy expiry: test_accept VALID, real submission 'mempool full') is listed in known_findings.txt. Package test_accept is only probed; policy=>consensus is decided for scripts the generator can build.",
+            "deterministic simulation: real node + mempool under seeded submission histories; oracle = full mempool fingerprint before/after, label + reference model + TestBlockValidity", "DESIGN.md §5 C28"),
     "C53": ("nodesim/versionbits", "exploration",
             "Real node with per-run TESTDUMMY BIP9 parameters (start/timeout/min_activation_height incl. ALWAYS/NEVER) and seeded block trees of 4-8 periods: signalling counts 107/108/109, period-end MTP aimed at start/timeout -1/0/+1, forks inside periods, reorgs across boundaries, clean restarts (cold cache), cache clears, invalidateblock; every sampled block is answered through the node's warm cache, a fresh cache, a run-long private cache and a raw condition checker: all must agree with each other (query-order independence) and with an independent BIP9 model recomputed from genesis over the reference tree (state, next state, since, statistics, active_since); same state within a period; ACTIVE/FAILED absorbing. A second per-run deployment with period 1-200 / threshold 0..period goes through a raw checker.",
             "Timestamps are constrained by what the node indexes (time > MTP(parent)); other periods than 144/108 only through the raw-checker path; cache concurrency not explored.",
